@@ -78,8 +78,9 @@ type hstmt struct {
 
 type aEvent struct {
 	Ev     string   `json:"ev"`
-	Src    string   `json:"src"` // cut | whole | random
-	Hist   []hstmt  `json:"hist"`
+	Src    string   `json:"src"` // cut | whole | random | long
+	Hist   []hstmt  `json:"hist"` // src long: only the last statements of the history
+	Hlen   int      `json:"hlen"` // number of statements parsed on this parser before the probe
 	Text   string   `json:"text"`
 	Kinds  []string `json:"kinds"`
 	End    string   `json:"end"`
@@ -554,24 +555,34 @@ func probeOf(text string) *probeInfo {
 	return pi
 }
 
+func histStmt(p *grammar.Parser, h string) hstmt {
+	_, ok, _ := parseWith(p, h)
+	ks, seen := kindsCache[h]
+	if !seen {
+		ks, _ = lexKinds(h)
+		if len(kindsCache) < 200000 {
+			kindsCache[h] = ks
+		}
+	}
+	return hstmt{Text: h, Kinds: ks, Acc: ok}
+}
+
 func emitA(src string, hist []string, probe string) {
 	p, _ := newSemParser()
 	hs := make([]hstmt, 0, len(hist))
 	for _, h := range hist {
-		_, ok, _ := parseWith(p, h)
-		ks, seen := kindsCache[h]
-		if !seen {
-			ks, _ = lexKinds(h)
-			if len(kindsCache) < 200000 {
-				kindsCache[h] = ks
-			}
-		}
-		hs = append(hs, hstmt{Text: h, Kinds: ks, Acc: ok})
+		hs = append(hs, histStmt(p, h))
 	}
+	emitProbe(p, src, hs, len(hs), hist, probe)
+}
+
+// emitProbe parses the probe on parser p (which has already seen hlen statements, the last of them in hs) and
+// compares its outcome with the one on a fresh parser.
+func emitProbe(p *grammar.Parser, src string, hs []hstmt, hlen int, hist []string, probe string) {
 	st, ok, _ := parseWith(p, probe)
 	reused := outcomeOf(st, ok)
 	pi := probeOf(probe)
-	ev := aEvent{Ev: "A", Src: src, Hist: hs, Text: probe, Kinds: pi.kinds, End: pi.end, Reused: reused, Fresh: pi.fresh, Open: pi.open, Attr: []string{}}
+	ev := aEvent{Ev: "A", Src: src, Hist: hs, Hlen: hlen, Text: probe, Kinds: pi.kinds, End: pi.end, Reused: reused, Fresh: pi.fresh, Open: pi.open, Attr: []string{}}
 	if !pi.open && !sameOutcome(reused, pi.fresh) {
 		// before a difference counts: is the meaning on a fresh parser deterministic at all?
 		for k := 0; k < 8 && !pi.open; k++ {
@@ -581,7 +592,7 @@ func emitA(src string, hist []string, probe string) {
 		}
 		ev.Open = pi.open
 	}
-	if !pi.open && !sameOutcome(reused, pi.fresh) {
+	if !pi.open && !sameOutcome(reused, pi.fresh) && src != "long" {
 		ev.Attr, ev.Other = attribute(hist, probe, pi.fresh)
 		if ev.Attr == nil {
 			ev.Attr = []string{}
@@ -595,7 +606,7 @@ func emitA(src string, hist []string, probe string) {
 	stats["a:"+src]++
 }
 
-func historyMode(sents []sentence, nbases, nprobes, nrandom int) {
+func historyMode(sents []sentence, nbases, nprobes, nrandom, nlong, longLen, longEvery int) {
 	c := &gram.Concretizer{Rng: rng}
 	// statements the semantic grammar accepts on a fresh parser, by statement kind (first token)
 	byKind := map[string][]stmt{}
@@ -719,6 +730,32 @@ func historyMode(sents []sentence, nbases, nprobes, nrandom int) {
 		}
 		emitA("random", hist, probes[rng.Intn(len(probes))].text)
 	}
+	// (3) long histories: thousands of statements (most of them rejected, at every depth of the grammar) on ONE
+	// parser, with a probe now and then - state that only builds up slowly (a counter, a cache, a pool) shows here
+	for rep := 0; rep < nlong && len(all) > 0; rep++ {
+		p, _ := newSemParser()
+		var tail []hstmt
+		for i := 1; i <= longLen; i++ {
+			b := all[rng.Intn(len(all))]
+			var h string
+			switch rng.Intn(4) {
+			case 0:
+				h = b.text
+			case 1, 2:
+				h = cutText(b, 1+rng.Intn(len(b.toks)), garbage[rng.Intn(len(garbage))])
+			default:
+				h = c.Text(mutate(b.toks, allKinds))
+			}
+			hsn := histStmt(p, h)
+			tail = append(tail, hsn)
+			if len(tail) > 3 {
+				tail = tail[1:]
+			}
+			if i%longEvery == 0 {
+				emitProbe(p, "long", append([]hstmt{}, tail...), i+(i/longEvery-1), nil, probes[rng.Intn(len(probes))].text)
+			}
+		}
+	}
 }
 
 // textsMode replays logged cases: {"text": t} -> event P, {"text": t, "w": true} -> event W,
@@ -772,6 +809,9 @@ func main() {
 	nbases := fs.Int("bases", 20, "history mode: statements cut at every position")
 	nprobes := fs.Int("probes", 10, "history mode: probe statements")
 	nrandom := fs.Int("random", 200, "history mode: random histories")
+	nlong := fs.Int("long", 0, "history mode: number of long histories on one parser")
+	longLen := fs.Int("long-len", 12000, "history mode: statements per long history")
+	longEvery := fs.Int("long-every", 400, "history mode: a probe after every this many statements of a long history")
 	must(fs.Parse(os.Args[2:]))
 	rng = rand.New(rand.NewSource(*seed))
 	var err error
@@ -793,7 +833,7 @@ func main() {
 	case "parse":
 		parseMode(sents, *mutations, *enum, *enumKeep, *trailing, *substKeep)
 	case "history":
-		historyMode(sents, *nbases, *nprobes, *nrandom)
+		historyMode(sents, *nbases, *nprobes, *nrandom, *nlong, *longLen, *longEvery)
 	default:
 		must(fmt.Errorf("unknown mode %q", mode))
 	}
